@@ -19,6 +19,7 @@
 #include <string.h>
 #include <math.h>
 #include <unistd.h>
+#include <fcntl.h>
 
 typedef struct { const char *mode; int thorough; int64_t budget; } ctx_t;
 
@@ -531,6 +532,39 @@ static void copy_check(const char *path, rng_t *r) {
                         for (uint32_t e = 0; e < cnt && 16 + 8 * (uint64_t) (e + 1) <= ic->plen; ++e) { uint64_t off; memcpy(&off, ic->payload + 16 + 8 * e, 8); if (!off) has_omitted[s] = 1; }
                     }
                     if (has_omitted[s] && (du.h_len[s] != dc.h_len[s] || du.h_samples[s] != dc.h_samples[s] || du.h_stats[s] != dc.h_stats[s])) any_omitted = 1;
+                    /* the finding concerns the omitted blocks only: every block that IS stored in the source must
+                     * read back from the copy at the same position with the same samples */
+                    if (has_omitted[s] && sd.sig[s].spd) {
+                        struct jls_rd_s *ra = NULL, *rb = NULL;
+                        if (!jls_rd_open(&ra, path) && !jls_rd_open(&rb, cp)) {
+                            const dtype_t *t = dtype_by_code(sd.sig[s].data_type);
+                            int64_t la = 0, lb = 0, blk = 0, spd = sd.sig[s].spd;
+                            jls_rd_fsr_length(ra, (uint16_t) s, &la); jls_rd_fsr_length(rb, (uint16_t) s, &lb);
+                            int64_t ln = la < lb ? la : lb;
+                            size_t nb = t ? (size_t) ((spd * t->bits + 7) / 8) + 16 : 0;
+                            uint8_t *xa = calloc(nb + 1, 1), *xb = calloc(nb + 1, 1);
+                            int flagged = 0;
+                            for (size_t k = 0; k < il->n && t && !flagged; ++k) {
+                                const jd_chunk_t *ic = &sd.ch[il->idx[k]];
+                                if (ic->plen < 16) continue;
+                                uint32_t cnt; memcpy(&cnt, ic->payload + 8, 4);
+                                for (uint32_t e = 0; e < cnt && 16 + 8 * (uint64_t) (e + 1) <= ic->plen && !flagged; ++e, ++blk) {
+                                    uint64_t off; memcpy(&off, ic->payload + 16 + 8 * e, 8);
+                                    int64_t p0 = blk * spd, n0 = p0 + spd <= ln ? spd : ln - p0;
+                                    if (!off || n0 <= 0) continue;
+                                    int32_t r1 = jls_rd_fsr(ra, (uint16_t) s, p0, xa, n0), r2 = jls_rd_fsr(rb, (uint16_t) s, p0, xb, n0);
+                                    if (r1 == 0 && (r2 != 0 || !bits_equal(xa, 0, xb, 0, n0 * t->bits, NULL))) {
+                                        v_violation("C17", "closed|stored-block-differs|signal-with-omitted-blocks", NULL, "signal %d: block %lld (samples %lld..), which is stored in the source, reads back differently from the copy (rc %d)", s, (long long) blk, (long long) p0, r2);
+                                        flagged = 1;
+                                    }
+                                }
+                            }
+                            v_count("C17", "stored_blocks_compared_in_signals_with_omission", blk);
+                            free(xa); free(xb);
+                        }
+                        if (ra) jls_rd_close(ra);
+                        if (rb) jls_rd_close(rb);
+                    }
                 }
                 jd_free(&sd);
             }
@@ -543,6 +577,62 @@ static void copy_check(const char *path, rng_t *r) {
     }
     v_count("C17", "copies_compared", 1);
     if (!getenv("VERIF_KEEP")) unlink(cp);
+}
+
+/* C17, damaged but readable original: one chunk header of a closed file is made unreadable (one bit flipped in the
+ * header of a USER_DATA, ANNOTATION DATA or FSR DATA chunk).  The reader still opens the file and reaches everything in
+ * front of the damaged chunk in that chunk's list and all other lists; jls_copy has to resynchronise behind the chunk.
+ * Everything the reader returns from the damaged original must read back the same from the copy (the copy may hold
+ * more: it scans linearly). */
+static void damaged_copy_check(const char *path, rng_t *r) {
+    jd_t d;
+    if (jd_load(&d, path)) return;
+    jd_decode(&d);
+    size_t cand[512]; size_t nc = 0, nbig = 0; size_t big[64];
+    for (size_t i = 0; i < d.n && nc < 512; ++i) {
+        uint8_t tag = d.ch[i].tag;
+        if (tag != 0x40 && tag != 0x32 && tag != 0x22) continue;
+        if (tag == 0x40 && d.ch[i].plen == 0) continue;              /* list head */
+        cand[nc++] = i;
+        if (d.ch[i].plen >= 4000 && nbig < 64) big[nbig++] = i;
+    }
+    if (!nc) { jd_free(&d); return; }
+    size_t pick = (nbig && rng_chance(r, 3, 4)) ? big[rng_below(r, nbig)] : cand[rng_below(r, nc)];
+    uint64_t off = d.ch[pick].off; uint8_t tag = d.ch[pick].tag; uint32_t plen = d.ch[pick].plen;
+    const char *dm = v_path("damaged.jls"), *cp = v_path("damaged-copy.jls");
+    uint8_t *buf = malloc(d.size); memcpy(buf, d.buf, d.size);
+    /* a bit of tag, chunk_meta, payload_length or payload_prev_length (bytes 16..27): never the shape of an interrupted link update */
+    buf[off + 16 + rng_below(r, 12)] ^= (uint8_t) (1u << rng_below(r, 8));
+    int fd = open(dm, O_WRONLY | O_CREAT | O_TRUNC, 0600);
+    if (fd < 0 || write(fd, buf, d.size) != (ssize_t) d.size) { if (fd >= 0) close(fd); free(buf); jd_free(&d); return; }
+    close(fd); free(buf);
+    size_t size = d.size;
+    jd_free(&d);
+    (void) size;
+    v_api("jls_copy");
+    int32_t rc = jls_copy(dm, cp, NULL, NULL, NULL, NULL);
+    v_api("");
+    v_count("C17", "damaged_originals_copied", 1);
+    v_feature("C17", 1, "damaged|tag=0x%02x|payload=%s", tag, plen >= 4000 ? ">=4000" : plen >= 256 ? ">=256" : "small");
+    if (rc) { v_count("C17", "damaged_copy_returned_error", 1); unlink(dm); unlink(cp); return; }
+    dump_t da, dc; uint64_t ds = rng_u64(r);
+    dump_keep_sequences(1);
+    dump_file(dm, &da, ds); dump_file(cp, &dc, ds);
+    dump_keep_sequences(0);
+    if (da.open_rc) v_count("C17", "damaged_original_unreadable", 1);
+    else {
+        uint8_t skip[256]; memset(skip, 0, sizeof(skip));
+        { jd_t sd; if (!jd_load(&sd, path)) { jd_decode(&sd);
+            for (int s = 1; s < 256; ++s) { const jd_list_t *il = &sd.sig[s].index[JD_TT_FSR][1];
+                for (size_t k = 0; k < il->n; ++k) { const jd_chunk_t *ic = &sd.ch[il->idx[k]]; if (ic->plen < 16) continue; uint32_t cnt; memcpy(&cnt, ic->payload + 8, 4);
+                    for (uint32_t e = 0; e < cnt && 16 + 8 * (uint64_t) (e + 1) <= ic->plen; ++e) { uint64_t o2; memcpy(&o2, ic->payload + 16 + 8 * e, 8); if (!o2) skip[s] = 1; } } }
+            jd_free(&sd); } }   /* omitted blocks: known finding of closed copies */
+        dump_prefix_lenient(1);
+        dump_compare_prefix(&da, &dc, dm, cp, "C17", "damaged", skip);
+        dump_prefix_lenient(0);
+    }
+    dump_free(&da); dump_free(&dc);
+    if (!getenv("VERIF_KEEP")) { unlink(dm); unlink(cp); }
 }
 
 static int files_identical(const char *a, const char *b, size_t *first_diff) {
@@ -952,6 +1042,8 @@ static void build_mix(prog_t *p, rng_t *r, ctx_t *c, char *feat, size_t featn, i
         d.sample_id_offset = first;
         def_normalised(&d, &nm);
         int pat = t->bits <= 8 && rng_chance(r, 1, 2) ? PAT_BLOCKCONST : PAT_WALK;
+        int longzero = t->bits <= 8 && rng_chance(r, 1, 6);   /* an omitted run longer than the 32 KiB fill scratch (a copy re-creates it as a gap) */
+        if (longzero) pat = PAT_LONGZERO;
         /* the definition goes into the signal's own list so that it may come late */
         size_t before = p->n;
         int si = prog_add_signal(p, &d, "mix", "u", pat, rng_u64(r));
@@ -960,6 +1052,7 @@ static void build_mix(prog_t *p, rng_t *r, ctx_t *c, char *feat, size_t featn, i
         p->n = before;
         int lcls;
         int64_t n = rng_chance(r, 1, 8) ? 0 : gen_length(r, &nm, type_budget(t, c->budget / 2), &lcls);
+        if (longzero) { int64_t need = 32768LL * 8 / t->bits + 8 * (int64_t) nm.samples_per_data; if (n < need) n = need; }
         if (n) {
             span_t *sp; size_t k = gen_partition(r, (int) rng_below(r, PART_COUNT), first, n, nm.samples_per_data, &sp);
             for (size_t q = 0; q < k; ++q) {
@@ -994,7 +1087,8 @@ static void build_mix(prog_t *p, rng_t *r, ctx_t *c, char *feat, size_t featn, i
     for (int i = 0; i < nanno; ++i) { op_t *a = ol_add(&lists[nl], OP_ANNO); a->id = 0; ts += (int64_t) rng_below(r, 3); a->ts = ts; a->y = NAN; a->atype = (uint8_t) rng_below(r, 4); a->stype = (uint8_t) rng_range(r, 1, 3); a->dsize = (uint32_t) rng_range(r, 1, 60); a->dseed = rng_u64(r); a->group = (uint8_t) i; }
     ++nl;
     int nuser = (int) rng_range(r, 0, 5);
-    for (int i = 0; i < nuser; ++i) { op_t *u = ol_add(&lists[nl], OP_USER); u->meta = (uint16_t) rng_below(r, 4096); u->stype = (uint8_t) rng_range(r, 1, 3); u->dsize = (uint32_t) rng_range(r, 1, 3000); u->dseed = rng_u64(r); }
+    for (int i = 0; i < nuser; ++i) { op_t *u = ol_add(&lists[nl], OP_USER); u->meta = (uint16_t) rng_below(r, 4096); u->stype = (uint8_t) rng_range(r, 1, 3); u->dsize = (uint32_t) rng_range(r, 1, 3000); u->dseed = rng_u64(r);
+        if (rng_chance(r, 1, 3)) { static const uint32_t bsz[] = {4040, 4048, 4056, 8136, 8144, 8152}; u->stype = JLS_STORAGE_TYPE_BINARY; u->dsize = bsz[rng_below(r, 6)] + (uint32_t) rng_below(r, 4); } }
     ++nl;
     fn += (size_t) snprintf(feat + fn, featn - fn, "|anno=%d|user=%d", nanno > 0, nuser > 0);
     op_t *ls[8]; size_t cn[8];
@@ -1038,6 +1132,7 @@ static void case_mix(rng_t *r, ctx_t *c) {
     v_count("C19", "closed_files_read", 1);
     v_feature("C19", chunks > 12, "closed|%s|levels=%d", feat, levels);
     copy_check(path, r);
+    damaged_copy_check(path, r);
     int omit_used = 0; for (int s = 1; s < 256; ++s) if (m.sig[s].omit_ever) omit_used = 1;
     v_feature("C17", chunks > 12, "closed|%s|levels=%d|omit=%d", feat, levels, omit_used);
     if (!getenv("VERIF_KEEP")) unlink(path);
